@@ -445,7 +445,7 @@ def check(case: dict[str, Any]) -> list[tuple[str, str]]:
         try:
             res = run_case(case, d)
         except BaseException as e:  # noqa: BLE001
-            return [(f"C15/harness/{type(e).__name__}", f"{case}: {type(e).__name__}: {e}")]
+            return [(f"C15/escapes-the-event-loop/{type(e).__name__}", f"{case}: {type(e).__name__} left asyncio.run(): {e}")]
         obs = observe(case, d, res)
     finally:
         shutil.rmtree(d, ignore_errors=True)
